@@ -167,6 +167,19 @@ Theorem C09_refusal_invariant_under_renaming :
 Proof. exact @kahn_refusal_invariant_under_renaming. Qed.
 
 (* ---------------------------------------------------------------------------------------------------------------- *)
+(* asking again: the order is a function of the registrations.  However often it is requested (print the order,       *)
+(* create simulants, iterate the manager) a fresh manager gives every request the answer of the first - a refusal is  *)
+(* refused again, an accepted order is the same order - and a refused request changes nothing                         *)
+(* ---------------------------------------------------------------------------------------------------------------- *)
+Theorem C09_requests_all_equal :
+  forall gs n r, In r (requests n (mkmanager gs None)) -> r = sort_groups gs.
+Proof. intros gs n r H. apply (requests_all_equal n (mkmanager gs None)); [now left|exact H]. Qed.
+
+Theorem C09_refused_request_inert :
+  forall m e, snd (request m) = Rejected e -> fst (request m) = m.
+Proof. exact refused_request_inert. Qed.
+
+(* ---------------------------------------------------------------------------------------------------------------- *)
 (* non-vacuity                                                                                                      *)
 (* ---------------------------------------------------------------------------------------------------------------- *)
 (* what every real context declares before the user's components: the population manager's `tracked`, the clock's
@@ -219,7 +232,13 @@ Example ex_descendants :
   | _ => (false, false) end = (true, false).
 Proof. vm_compute. reflexivity. Qed.
 
+Example ex_requests_refused : match build [10] cyc with Ok gs => requests 3 (mkmanager gs None) | _ => [] end
+  = [Rejected EResource; Rejected EResource; Rejected EResource].
+Proof. vm_compute. reflexivity. Qed.
+
 Print Assumptions C09_kahn_sound.
+Print Assumptions C09_requests_all_equal.
+Print Assumptions C09_refused_request_inert.
 Print Assumptions C09_kahn_refuses_cycles.
 Print Assumptions C09_kahn_complete.
 Print Assumptions C09_kahn_never_out_of_fuel.
